@@ -67,7 +67,6 @@ func init() {
 		AlsoFuncs: []string{"snap.SnapPolygon", "mapslicehelp.RemoveSequences", "mapslicehelp.LastMatch", "mapslicehelp.DeleteFromSliceByIndex", "mapslicehelp.ReverseClone", "snap.ringsAreEqual", "snap.kmpSearchAll"},
 		NotDecided: []string{
 			"that the bodies of kmpDeduplicate, splitRing, dedupeInnersOuters, matchInnersToPolygons, sortPolyIdxsByOuterAreaDesc, ringContains neither panic nor loop: outside the verifier's reach (append into a re-sliced ring, ordered/sorted map libraries), only the bounded stand-ins ring-assembly-small-alphabet and snap-total-small. Their helpers kmpTable, kmpSearch, kmpSearchAll, RemoveSequences, ReverseClone, DeleteFromSliceByIndex, LastMatch, ringsAreEqual, ensureCorrectWindingOrder, outersToPolygons ARE proved safe and terminating",
-			"that cleanupNewVertices never sees an empty list (panicNoPointsFoundForVertices): it needs that every inserted vertex keeps a stored pixel on every level, which is not carried through the insertion contracts yet; covered by the bounded stand-in only",
 			"time bound (polynomial in the vertex count): termination of every loop of the verified functions is proved by decreases clauses, no complexity statement",
 			"tile matrices whose pixel level exceeds 32: known finding F6 (excluded by the precondition of SnapPolygon's contract)"},
 		Assumptions: []string{"preconditions of SnapPolygon's contract (ids in [0,1000], indexable tile matrix set, level <= 32, |ordinate| < 2e8, round grid)",
